@@ -56,6 +56,8 @@ where
     iodriver: IoDriver,
     corrupted_blobs: AtomicUsize,
     fsync_in_progress: AtomicBool,
+    /// Held (shared) by every detached BLOB creation task, see `ensure_active_blob_exists`
+    blob_creations: Arc<RwLock<()>>,
 }
 
 #[derive(Debug)]
@@ -587,6 +589,9 @@ where
 
         // Wait for observer worker shutdown. Locks should be released at this point
         self.observer.shutdown().await;
+        // A BLOB creation started by an operation whose future was dropped may still be running. Its file has
+        // no header until the task completes, so the storage is not closed before that
+        let _ = self.inner.blob_creations.write().await;
         res
     }
 
@@ -1172,7 +1177,8 @@ where
             next_blob_id: AtomicUsize::new(0),
             iodriver,
             corrupted_blobs: AtomicUsize::new(0),
-            fsync_in_progress: AtomicBool::new(false)
+            fsync_in_progress: AtomicBool::new(false),
+            blob_creations: Arc::new(RwLock::new(())),
         }
     }
 
@@ -1235,7 +1241,12 @@ where
             // futures can be dropped at any await point. BLOB creation (create file, write header, sync)
             // must not be interrupted in the middle: an empty BLOB file would be left on disk and detected
             // as corrupted on the next start. So it runs in a separate task that always completes
-            let blob = tokio::spawn(async move { Blob::open_new(next, iodriver, config).await })
+            // `close` waits for the task through this guard: when the caller is dropped the task goes on alone
+            let in_progress = self.blob_creations.clone().read_owned().await;
+            let blob = tokio::spawn(async move {
+                let _in_progress = in_progress;
+                Blob::open_new(next, iodriver, config).await
+            })
                 .await
                 .map_err(|e| anyhow!("BLOB creation task failed: {}", e))??;
             safe.active_blob = Some(Box::new(ASRwLock::new(blob)));
